@@ -1593,7 +1593,7 @@ def run(ck):
     for key, wit in sorted(active.items()):
         ck.finding(key, {"oracle": ORACLE, "witness": wit, "replay_hint": ".build/h/c01_rt < script (one command per line)"})
     avoid_complex = "complex-array-unreadable" in active or "complex-array-children-lost" in active
-    nsc = 30 if big else 3
+    nsc = 60 if big else 3
     configs_all = list(CONFIGS)
     dist = {"files": 0, "calls": 0, "entities": 0, "functions": set(), "kinds": set(), "configs": {}}
     fails_seen, divs_seen = {}, []
